@@ -13,7 +13,7 @@ import (
 
 func init() {
 	register("C08", &propDef{
-		Run: checkC08,
+		Run:         checkC08,
 		Explanation: "Static decision of the structural clauses of C08. (1) In GetCertificate a failed load reaches certificate generation only over the true edge of errors.Is(err, fs.ErrNotExist) on that load's error; every other load error returns an error. (2) The loader can only report not-exist for the cache file itself: every error it returns either wraps the error of the one call that opens/reads the cache file, or wraps errors of calls that cannot yield fs.ErrNotExist (tls.X509KeyPair, x509.ParseCertificate), or wraps nothing; and every success return is the result of tls.X509KeyPair over the certificate and key members of the same parsed archive (a mismatched pair cannot be served). (3) The cache is written only by SaveCertificate, which has a single caller, on the generation path (dominated by the generation call); no other function of sstls writes, renames or removes files. (4) Every directory-creating and file-writing call of sstls has constant permission bits without group/other access. (5) The -tls-certificate-cache flag value flows unchanged through hsrv.New and sstls.Listen to GetCertificate. The behaviour of txtar/pem parsing on each torn prefix and the atomicity of os.WriteFile are outside.",
 		Assumptions: []string{"tls.X509KeyPair rejects a private key which does not match the certificate", "os.WriteFile/MkdirAll apply the given permission bits modulo umask"},
 	})
@@ -116,7 +116,9 @@ func checkC08(p *Prog, r *Report) {
 			/* A successful load returns the loaded certificate. */
 			for _, t := range tests {
 				from := Loc{t.If.Block().Succs[t.NilSucc], -1}
-				if hit := (reachQ{From: from, Target: func(i ssa.Instruction) bool { return i == ssa.Instruction(genCall) || (nil != saveCall && i == ssa.Instruction(saveCall)) }}).run(); nil != hit {
+				if hit := (reachQ{From: from, Target: func(i ssa.Instruction) bool {
+					return i == ssa.Instruction(genCall) || (nil != saveCall && i == ssa.Instruction(saveCall))
+				}}).run(); nil != hit {
 					rNE.Bad(fnName(get)+":loaded-is-served", posOf(hit), "after a successful load the function can still generate or save a certificate")
 				} else {
 					rNE.OK(fnName(get)+":loaded-is-served", posOf(loadCall), "a successful load returns without generating or saving")
